@@ -71,7 +71,7 @@ func nativeReplay(path string) (bool, string) {
 	if err != nil {
 		return false, err.Error()
 	}
-	if len(rf.Sched) > 0 {
+	if len(rf.Sched) > 0 && rf.Kind != "race" {
 		// thread harness: instrumented copies of the package's files follow the recorded schedule natively
 		prog, err := exec.Load(repoDir, rf.PkgRel, ov)
 		if err != nil {
@@ -120,10 +120,20 @@ func nativeReplay(path string) (bool, string) {
 	if rf.PkgRel == "" {
 		pat = "."
 	}
-	cmd := osexec.CommandContext(ctx, "go", "test", "-v", "-vet=off", "-count=1", "-timeout", "20s", "-run", "^TestVerifReplay$", "-overlay", ovPath, pat)
+	goArgs := []string{"test", "-v", "-vet=off", "-count=1", "-timeout", "20s", "-run", "^TestVerifReplay$", "-overlay", ovPath, pat}
+	if rf.Kind == "race" {
+		// data races are confirmed by Go's own race detector on a free run (the replay scheduler's lock would order
+		// every gated operation and hide the race): happens-before races do not depend on the schedule taken
+		goArgs = append([]string{"test", "-race"}, goArgs[1:]...)
+		rf.Sched = nil
+	}
+	cmd := osexec.CommandContext(ctx, "go", goArgs...)
 	cmd.Dir = repoDir
 	abs, _ := filepath.Abs(path)
 	cmd.Env = append(os.Environ(), "GOFLAGS=-mod=mod", "GOPROXY=off", "GOSUMDB=off", "GOTOOLCHAIN=local", "VERIF_REPLAY="+abs)
+	if rf.Kind == "race" {
+		cmd.Env = append(cmd.Env, "VERIF_RACE=1")
+	}
 	outB, runErr := cmd.CombinedOutput()
 	out := string(outB)
 	failed := runErr != nil
@@ -151,6 +161,22 @@ func nativeReplay(path string) (bool, string) {
 			return false, short
 		}
 		return strings.Contains(out, "panic:") || strings.Contains(out, "fatal error:"), short
+	case "race":
+		// the report must name both source positions of the race the executor found (races of the harness's own
+		// bookkeeping, which runs unsynchronised in this mode, do not count)
+		if !strings.Contains(out, "WARNING: DATA RACE") {
+			return false, short
+		}
+		i := strings.Index(rf.Site, "|race:")
+		if i < 0 {
+			return false, short
+		}
+		for _, pos := range strings.Split(rf.Site[i+len("|race:"):], "|") {
+			if !strings.Contains(out, "/"+pos) {
+				return false, short
+			}
+		}
+		return true, short
 	case "deadlock":
 		return failed && (strings.Contains(out, "test timed out") || strings.Contains(out, "all goroutines are asleep")), short
 	}
